@@ -70,7 +70,7 @@ Record Rel (s : pst) (st : cstate) : Prop := {
 }.
 
 Definition code (e : exn) : N :=
-  match e with EValue => VE | EFileNotFound => FNF | EUser => USER | EType => 99%N | EIndex => 98%N end.
+  match e with EValue => VE | EFileNotFound => FNF | EUser => USER | EType => 99%N | EIndex => 98%N | EKey => 97%N end.
 Definition out_ok {A} (r : R A) (o : outcome) : Prop :=
   match r, o with Ret _, Ok => True | Exc e, Raised k => k = code e | _, _ => False end.
 
